@@ -1177,7 +1177,7 @@ static bool parse_gid(const std::string& payload, uint64_t& seed, uint64_t& idx)
 static void probes(Out& out) {
     struct Pr { int variant; uint64_t me; } prs[] = {{0, 2}, {0, 5}, {0, 10}, {0, 100}, {0, 1000}, {1, 1}, {1, 2}, {1, 1000}, {2, 1000}, {3, 1000}, {4, 1000}};
     for (auto& p : prs) {
-        std::string res = in_child([&](FILE* o) { probe_case(p.variant, p.me, o); }, 3);
+        std::string res = in_child([&](FILE* o) { probe_case(p.variant, p.me, o); }, 30);
         static const char* vn[] = {"offset-step", "corner", "interpolation-offset-taper", "interpolation-width-taper", "interpolation-smooth-width-taper"};
         std::string id = out.add("probe", std::string(vn[p.variant]) + " max_evals=" + std::to_string(p.me));
         out.I(id, res);
@@ -1209,7 +1209,7 @@ int main(int argc, char** argv) {
     auto one = [&](uint64_t sd, uint64_t idx) {
         char gidb[64];
         snprintf(gidb, sizeof gidb, "g=%llu:%llu", (unsigned long long)sd, (unsigned long long)idx);
-        std::string res = in_child([&](FILE* o) { run_path(sd, idx, outdir, o); }, 20);
+        std::string res = in_child([&](FILE* o) { run_path(sd, idx, outdir, o); }, 60);
         absorb(out, res, gidb);
     };
     if (argc > 5) {
